@@ -181,6 +181,62 @@ Proof.
   eapply (G attrs []); [|exact H]. intros t. reflexivity.
 Qed.
 
+(* ---- the `Zeroize(fqs)` flag of a field, as written ---- *)
+Definition meta2_is_fqs (m : meta2) : bool :=
+  match m with M2Path p => is_ident p "fqs" | _ => false end.
+
+Definition meta_fqs (m : meta1) : bool :=
+  match m with M1List _ (Some ms) => existsb meta2_is_fqs ms | _ => false end.
+
+Definition ffqs_decl (seen : list meta1) (st : skip * bool) : Prop :=
+  snd st = existsb (fun m => meta1_is m "Zeroize" && meta_fqs m) seen.
+
+Lemma fqs_scan_decl ms : forall self b, fqs_scan ms self = Ok b -> b = self || existsb meta2_is_fqs ms.
+Proof.
+  induction ms as [|m ms IH]; cbn [fqs_scan existsb]; intros self b H.
+  - inversion H; subst. rewrite orb_false_r. reflexivity.
+  - destruct m as [p| |]; try discriminate. cbn [meta2_is_fqs].
+    destruct (is_ident p "fqs"); [|discriminate]. destruct self; [discriminate|].
+    rewrite (IH _ _ H). reflexivity.
+Qed.
+
+Lemma fqs_add_decl dws m self q : fqs_add dws m self = Ok q -> q = self || meta_fqs m.
+Proof.
+  unfold fqs_add. destruct (negb (existsb (fun d => dw_contains d Zeroize) dws)); [discriminate|].
+  destruct m as [p|p e|p args|ts]; try discriminate. intros H. inv_bind H.
+  unfold non_empty_metas2 in Hb. destruct args as [[|a0 l0]|]; try discriminate. inversion Hb; subst.
+  cbn [meta_fqs]. eapply fqs_scan_decl. exact H.
+Qed.
+
+Lemma field_add_meta_fqs c dws parent seen st m st' :
+  ffqs_decl seen st -> field_add_meta c dws parent st m = Ok st' -> ffqs_decl (seen ++ [m]) st'.
+Proof.
+  unfold ffqs_decl. intros Hs H. unfold field_add_meta in H. rewrite existsb_app. cbn [existsb]. rewrite orb_false_r.
+  destruct (meta1_is m "skip") eqn:E1.
+  - inv_bind H. inversion H; subst; cbn [snd].
+    rewrite (meta1_is_excl m "skip" "Zeroize" E1) by discriminate. cbn [andb]. rewrite orb_false_r. exact Hs.
+  - destruct (c_zeroize c && meta1_is m "Zeroize") eqn:E2; [|discriminate]. apply andb_prop in E2. destruct E2 as [_ E2].
+    inv_bind H. inversion H; subst; cbn [snd]. rewrite E2. cbn [andb]. rewrite (fqs_add_decl _ _ _ _ Hb), Hs. reflexivity.
+Qed.
+
+Theorem field_fqs_declarative c dws parent attrs st :
+  field_attr_from_attrs c dws parent attrs = Ok st -> ffqs_decl (metas_of attrs) st.
+Proof.
+  unfold field_attr_from_attrs. intros H.
+  assert (G : forall attrs seen s0 s1, ffqs_decl (metas_of seen) s0 -> foldM (field_add_attr c dws parent) attrs s0 = Ok s1 ->
+                                       ffqs_decl (metas_of (seen ++ attrs)) s1).
+  { induction attrs0 as [|a attrs0 IH]; cbn [foldM]; intros seen s0 s1 HP HH.
+    - inversion HH; subst. rewrite app_nil_r. exact HP.
+    - inv_bind HH. replace (seen ++ a :: attrs0) with ((seen ++ [a]) ++ attrs0) by (rewrite <- app_assoc; reflexivity).
+      eapply IH; [|exact HH]. unfold metas_of. rewrite flat_map_app. cbn [flat_map]. rewrite app_nil_r.
+      destruct a as [sa|p ts]; cbn [field_add_attr] in Hb.
+      + inv_bind Hb. rewrite (non_empty_metas1_inv _ _ Hb0).
+        eapply (foldM_metas_decl ffqs_decl (field_add_meta c dws parent)); [|exact HP|exact Hb].
+        intros; eapply field_add_meta_fqs; eassumption.
+      + inversion Hb; subst. rewrite app_nil_r. exact HP. }
+  eapply (G attrs []); [|exact H]. reflexivity.
+Qed.
+
 (* order and grouping of the options do not matter: [existsb] is invariant under permutation *)
 Lemma existsb_perm {A} (f : A -> bool) l l' : Permutation l l' -> existsb f l = existsb f l'.
 Proof.
@@ -353,4 +409,46 @@ Proof.
   intros H Hk Hi. destruct (from_input_inv c r i H) as [ia [Ha [_ [_ K]]]]. rewrite Hk in K.
   destruct K as [disc' [vs' [fd [fi [_ [_ [_ [_ [_ E]]]]]]]]]. rewrite Hi in E. inversion E; subst.
   apply (item_attrs_declarative _ _ _ _ _ Ha).
+Qed.
+
+(* ---- the fqs flag of every field of an accepted item, as written ---- *)
+Definition fqs_as_written (rf : raw_field) (f : field) : Prop :=
+  f_fqs f = existsb (fun m => meta1_is m "Zeroize" && meta_fqs m) (metas_of (rf_attrs rf)).
+
+Lemma fields_from_fqs c dws parent named fs fl :
+  fields_from c dws parent named fs = Ok fl -> Forall2 fqs_as_written fs fl.
+Proof.
+  unfold fields_from. unfold indexed. generalize 0 as n. revert fl.
+  induction fs as [|rf fs IH]; cbn [indexed_from mapM]; intros fl n H.
+  - inversion H. constructor.
+  - inv_bind H. inv_bind H. inversion H; subst. constructor; [|eapply IH; eassumption].
+    unfold field_from in Hb. inv_bind Hb. pose proof (field_fqs_declarative _ _ _ _ _ Hb1) as D.
+    unfold fqs_as_written. destruct named; [destruct (rf_name rf); [|discriminate]|]; inversion Hb; subst; cbn [f_fqs]; exact D.
+Qed.
+
+Theorem accepted_struct_fqs c r i sh fs d :
+  from_input c r = Ok i -> ri_kind r = KStruct sh fs -> in_item i = IItem d ->
+  sh = RUnit \/ Forall2 fqs_as_written fs (d_fields d).
+Proof.
+  intros H Hk Hi. destruct (from_input_inv c r i H) as [ia [Ha [_ [_ K]]]]. rewrite Hk in K.
+  destruct K as [d' [Hd E]]. rewrite Hi in E. inversion E; subst d'. clear -Hd.
+  unfold data_from_struct in Hd. destruct sh.
+  - destruct (match fs with [] => negb _ | _ => false end); [discriminate|]. inv_bind Hd. inversion Hd; subst; cbn.
+    right. eapply fields_from_fqs; eassumption.
+  - destruct (match fs with [] => negb _ | _ => false end); [discriminate|]. inv_bind Hd. inversion Hd; subst; cbn.
+    right. eapply fields_from_fqs; eassumption.
+  - left. reflexivity.
+Qed.
+
+Theorem accepted_variants_fqs c r i rvs disc id inc vs :
+  from_input c r = Ok i -> ri_kind r = KEnum rvs -> in_item i = IEnum disc id inc vs ->
+  Forall2 (fun rv d => rv_shape rv = RUnit \/ Forall2 fqs_as_written (rv_fields rv) (d_fields d)) rvs vs.
+Proof.
+  intros H Hk Hi. destruct (from_input_inv c r i H) as [ia [_ [_ [_ K]]]]. rewrite Hk in K.
+  destruct K as [disc' [vs' [fd [fi [Hm [_ [_ [_ [_ E]]]]]]]]]. rewrite Hi in E. inversion E; subst.
+  apply mapM_Forall2 in Hm. clear -Hm. induction Hm as [|rv d rvs vs Hd Hm IH]; constructor; [|assumption].
+  unfold data_from_variant in Hd. inv_bind Hd. destruct (rv_shape rv) eqn:E.
+  - inv_bind Hd. inversion Hd; subst; cbn. right. eapply fields_from_fqs; eassumption.
+  - inv_bind Hd. inversion Hd; subst; cbn. right. eapply fields_from_fqs; eassumption.
+  - left. reflexivity.
 Qed.
